@@ -21,7 +21,8 @@ RULE = ("case = one read history on Unblock1014 (each history ends with a read w
         "bytes already delivered, reached by two chunkings ([r]; [1012, r] or 4-byte reads), crossed with the next "
         "read size (quick: ~120 boundary sizes; thorough: every size 1..2024); validate: every truncation length "
         "0..1014*B and every value of every trailer byte for B in 1..4 and 65 (130 too in thorough); seeded: 1..40 reads "
-        "incl. no-size reads on 1..8 (7%: up to 140) block images from three producers. distinct = distinct (producer, blocks, ((residue, size|all), ...)) "
+        "incl. no-size reads on 1..8 (7%: up to 140) block images from three producers; stream: 70..300 block images "
+        "consumed in equal steps through one unblocker; bigreads: reads of 3..9 blocks ending on / next to a payload edge. distinct = distinct (producer, blocks, ((residue, size|all), ...)) "
         "or (fault kind, B, offset, value); non-trivial = a read crosses a payload edge / the fault changes the image")
 COMPONENTS = {
     "real": ["cardutil.mciipm.Unblock1014", "cardutil.mciipm.unblock_1014", "cardutil.mciipm.VbsReader(blocked=True)",
@@ -218,6 +219,9 @@ def plan(tier, seed, wave):
         if tier == "thorough":
             tasks.append({"fam": "validate", "blocks": 130, "tier": tier})
         tasks.append({"fam": "inverse", "tier": tier})
+        for B in ((70, 140) if tier == "quick" else (66, 70, 100, 140, 300)):
+            tasks.append({"fam": "stream", "blocks": B, "tier": tier})
+        tasks.append({"fam": "bigreads", "tier": tier})
     if tier == "quick":
         if wave > 0:
             return []
@@ -303,6 +307,52 @@ def run_task(task):
         part["runs"] += 1
         part["samples"].append({"kind": "unblock_validate", "blocks": B, "payload_len": plen,
                                 "fault": {"kind": "substitute", "off": 1012, "val": 0}})
+    elif task["fam"] == "stream":
+        # a reader consuming a long file in equal steps (what the record reader does): > 64 blocks
+        # delivered through ONE unblocker, then a read with no size
+        B = task["blocks"]
+        length = B * 1012 - 5
+        image = make_image("ref", length)
+        for step in (4, 500, 1012, 1013, 3000, 6000):
+            nreads = (B * 1012) // step + 2
+            reads = [step] * nreads + [None]
+            fails, f = judge_reads(image, reads)
+            part["evals"] += 1
+            part["events"] += f.n_ops
+            part["nontrivial"] += 1
+            c["probe:more_than_64_blocks_through_one_unblocker"] += 1
+            for fl in fails:
+                _fail(part, fl, {"kind": "unblocker_history", "producer": "ref", "payload_len": length, "reads": reads})
+            # same, with a no-size read in the middle
+            half = nreads // 2
+            reads2 = [step] * half + [None, step, None]
+            fails, f = judge_reads(image, reads2)
+            part["evals"] += 1
+            part["nontrivial"] += 1
+            for fl in fails:
+                _fail(part, fl, {"kind": "unblocker_history", "producer": "ref", "payload_len": length, "reads": reads2})
+        part["runs"] += 1
+    elif task["fam"] == "bigreads":
+        # reads of 3..9 blocks that end exactly on / next to a payload edge, from every residue class
+        image = make_image("ref", 12 * 1012 - 3)
+        residues = range(0, 1012) if task["tier"] == "thorough" else list(range(0, 1012, 37)) + [1, 4, 1008, 1011]
+        for r in residues:
+            for k in range(3, 10):
+                for d in (-1, 0, 1):
+                    n = k * 1012 - r + d
+                    if n < 1:
+                        continue
+                    for pre in (([r] if r else []), ([4] * (r // 4) + ([r % 4] if r % 4 else []))):
+                        reads = pre + [n, 10, None]
+                        fails, f = judge_reads(image, reads)
+                        part["evals"] += 1
+                        part["events"] += f.n_ops
+                        part["nontrivial"] += 1
+                        if d == 0:
+                            c["probe:multi_block_read_ending_exactly_on_payload_edge"] += 1
+                        for fl in fails:
+                            _fail(part, fl, {"kind": "unblocker_history", "producer": "ref", "payload_len": 12 * 1012 - 3, "reads": reads})
+        part["runs"] += 1
     elif task["fam"] == "inverse":
         lens = list(range(0, 3100)) if task["tier"] == "thorough" else sorted(set(list(range(0, 40)) + list(range(990, 1040)) + list(range(2000, 2050)) + list(range(3020, 3050))))
         for ln in lens:
@@ -367,7 +417,7 @@ def minimise(scn, oracle):
             cur["producer"] = "ref"
         reads = shrink.ddmin(cur["reads"], lambda r: ok(dict(cur, reads=r)), dl)
         for i in range(len(reads)):
-            if reads[i] is None:
+            if reads[i] is None or dl.over():
                 continue
 
             def t(n, i=i):
